@@ -9,134 +9,7 @@ use std::hash::{Hash, Hasher};
 
 verus! {
 
-// ---- prelude (trusted base) -------------------------------------------------------------------
-#[verifier::external_body]
-pub struct ConnectionId { _p: () }
-
-// UUID newtypes: opaque Copy keys with structural equality
-macro_rules! opaque_copy_key {
-    ($t:ident) => {
-        verus! {
-        #[verifier::external_body]
-        #[derive(Clone, Copy)]
-        pub struct $t { _p: () }
-        impl PartialEqSpecImpl for $t {
-            open spec fn obeys_eq_spec() -> bool { true }
-            open spec fn eq_spec(&self, other: &Self) -> bool { *self == *other }
-        }
-        impl PartialEq for $t {
-            #[verifier::external_body]
-            fn eq(&self, other: &Self) -> (r: bool) { unimplemented!() }
-        }
-        impl Eq for $t {}
-        impl Hash for $t {
-            #[verifier::external_body]
-            fn hash<H: Hasher>(&self, state: &mut H) { unimplemented!() }
-        }
-        }
-    };
-}
-opaque_copy_key!(ObjectUuid);
-opaque_copy_key!(ServiceUuid);
-opaque_copy_key!(ObjectCookie);
-opaque_copy_key!(ServiceCookie);
-
-// the real id structs and bus events (core/src/ids/*.rs, core/src/bus_listener.rs)
-//@item core/src/ids/object_id.rs struct ObjectId attr=derive(Clone,Copy)
-//@item core/src/ids/service_id.rs struct ServiceId attr=derive(Clone,Copy)
-//@item core/src/bus_listener.rs enum BusEvent attr=derive(Clone,Copy)
-
-// the real filter types (core/src/bus_listener.rs). #[derive(PartialEq, Eq, Hash)] = structural equality with a consistent
-// hash: ASSUMED (eq_spec below, key-model axiom)
-//@item core/src/bus_listener.rs enum BusListenerFilter attr=derive(Clone,Copy)
-//@item core/src/bus_listener.rs struct BusListenerServiceFilter attr=derive(Clone,Copy)
-impl PartialEqSpecImpl for BusListenerFilter {
-    open spec fn obeys_eq_spec() -> bool { true }
-    open spec fn eq_spec(&self, other: &Self) -> bool { *self == *other }
-}
-impl PartialEq for BusListenerFilter {
-    #[verifier::external_body]
-    fn eq(&self, other: &Self) -> (r: bool) { unimplemented!() }
-}
-impl Eq for BusListenerFilter {}
-impl Hash for BusListenerFilter {
-    #[verifier::external_body]
-    fn hash<H: Hasher>(&self, state: &mut H) { unimplemented!() }
-}
-
-pub mod trusted {
-    use super::*;
-    pub broadcast axiom fn axiom_filter_key_model()
-        ensures #[trigger] obeys_key_model::<BusListenerFilter>();
-}
-
-broadcast use {trusted::axiom_filter_key_model, vstd::std_specs::hash::group_hash_axioms};
-
-//@include _shared/std_option_specs.rs
-
-//@include _shared/iter_step.rs
-//@include _shared/set_iter_lemmas.rs
-
-// ---- extracted ---------------------------------------------------------------------------------
-//@item core/src/bus_listener.rs enum BusListenerScope attr=derive(Clone,Copy)
-// #[derive(PartialEq)] on BusListenerScope is structural equality. ASSUMED.
-impl PartialEqSpecImpl for BusListenerScope {
-    open spec fn obeys_eq_spec() -> bool { true }
-    open spec fn eq_spec(&self, other: &Self) -> bool { *self == *other }
-}
-impl PartialEq for BusListenerScope {
-    #[verifier::external_body]
-    fn eq(&self, other: &Self) -> (r: bool) { unimplemented!() }
-}
-
-// ---- the filter predicate, written from the property statement (the same specification the Kani harnesses
-// C10.filter_matches_* check against the compiled code for all inputs) -------------------------------------------
-pub open spec fn spec_service_filter_matches(f: BusListenerServiceFilter, id: ServiceId) -> bool {
-    &&& (f.object matches Some(o) ==> id.object_id.uuid == o)
-    &&& (f.service matches Some(s) ==> id.uuid == s)
-}
-pub open spec fn spec_matches_object(f: BusListenerFilter, object: ObjectId) -> bool {
-    f matches BusListenerFilter::Object(o) && (o matches Some(u) ==> object.uuid == u)
-}
-pub open spec fn spec_matches_service(f: BusListenerFilter, service: ServiceId) -> bool {
-    f matches BusListenerFilter::Service(sf) && spec_service_filter_matches(sf, service)
-}
-pub open spec fn spec_matches_event(f: BusListenerFilter, event: BusEvent) -> bool {
-    match event {
-        BusEvent::ObjectCreated(o) => spec_matches_object(f, o),
-        BusEvent::ObjectDestroyed(o) => spec_matches_object(f, o),
-        BusEvent::ServiceCreated(s) => spec_matches_service(f, s),
-        BusEvent::ServiceDestroyed(s) => spec_matches_service(f, s),
-    }
-}
-
-impl BusListenerScope {
-    //@fn core/src/bus_listener.rs BusListenerScope::includes_current
-        ensures r == (self == BusListenerScope::Current || self == BusListenerScope::All),
-    //@end
-    //@fn core/src/bus_listener.rs BusListenerScope::includes_new
-        ensures r == (self == BusListenerScope::New || self == BusListenerScope::All),
-    //@end
-}
-
-impl BusListenerServiceFilter {
-    //@fn core/src/bus_listener.rs BusListenerServiceFilter::matches
-        ensures r == spec_service_filter_matches(self, id),
-    //@end
-}
-
-impl BusListenerFilter {
-    //@fn core/src/bus_listener.rs BusListenerFilter::matches_object
-        ensures r == spec_matches_object(self, object),
-    //@end
-    //@fn core/src/bus_listener.rs BusListenerFilter::matches_service
-        ensures r == spec_matches_service(self, service),
-    //@end
-    //@fn core/src/bus_listener.rs BusListenerFilter::matches_event
-        ensures r == spec_matches_event(self, event),
-    //@end
-}
-
+//@include _shared/bus_filter_prelude.rs
 //@item broker/src/bus_listener.rs struct BusListener
 
 impl BusListener {
